@@ -57,6 +57,10 @@ pub struct Case {
     /// form one group; what they depend on is pulled in)
     #[serde(default)]
     pub named_deps: bool,
+    /// non-zero: a checkpoint exists and only the targets selected by this mask (bit i%32 of
+    /// target i) have changed; the groups are the pruned ones `analyze` then reports
+    #[serde(default)]
+    pub changed_mask: u32,
 }
 
 pub fn strategy(max_n: usize) -> impl Strategy<Value = Case> {
@@ -112,6 +116,8 @@ pub fn strategy(max_n: usize) -> impl Strategy<Value = Case> {
                 big_args: gp % 5 == 1,
                 quick_members: gp % 3 == 2,
                 named_deps: gp % 4 == 1,
+                // a quarter of the cases: roughly two thirds of the targets changed, scattered
+                changed_mask: if gp % 4 == 2 { history_mask | history_mask.rotate_left(11) | 1 } else { 0 },
                 cpus: if n <= 16 && !listener {
                     match gp % 7 {
                         3 => 1,
@@ -140,6 +146,16 @@ fn attempt(case: &Case, w: usize, timeout_ms: u64) -> Result<(bool, CaseInfo, Va
     env.install_config(cfg);
     if case.cpus > 0 {
         env.cpus = Some(case.cpus as usize);
+    }
+    if case.changed_mask != 0 {
+        if let Err(e) = bb::commit_all_and_checkpoint(&mut env) {
+            return inconclusive(e);
+        }
+        for (i, t) in cfg.targets.iter().enumerate() {
+            if case.changed_mask >> (i % 32) & 1 == 1 {
+                env.write_file(&format!("{}/changed-since-checkpoint.txt", t.path.trim_end_matches('/')), b"new\n");
+            }
+        }
     }
     let an = env.mr(&["analyze", "--target-groups"]);
     let Some(av) = an.json() else {
@@ -287,6 +303,7 @@ fn attempt(case: &Case, w: usize, timeout_ms: u64) -> Result<(bool, CaseInfo, Va
         .class_if(case.cpus > 0, "confined-to-1-2-cpus")
         .class_if(case.quick_members, "a-third-of-the-members-exit-at-once")
         .class_if(case.named_deps, "members-named-with--t-and---deps")
+        .class_if(case.changed_mask != 0, "checkpoint-and-scattered-changes(pruned-groups)")
         .class_if(case.early_output > 0, "members-print-more-than-a-pipe-buffer-first")
         .class_if(undefined.is_some(), "one-member-does-not-define-the-command")
         .class_if(case.big_args && !case.shared_exe, "one-member-gets-100KiB-of-arguments")
